@@ -21,15 +21,43 @@ CASE_TIMEOUT = 60
 def impl(py):
     from labella.force import Force
     from labella.node import Node
-    nodes = [Node(p, w) for p, w in py["nodes"]]
+    nodes = [Node(p, w, data=i) for i, (p, w) in enumerate(py["nodes"])]
     f = Force(dict(py["opts"]))
     f.nodes(nodes)
     f.compute()
     layers = []
-    for layer in f.getLayers():
-        layers.append([[(n.parent.currentPos if n.parent else n.idealPos), n.width,
-                        bool(n.isStub()), n.currentPos] for n in layer])
-    return {"layers": layers, "layerWidth": f.distributor.options["layerWidth"]}
+    link_errors = []
+    below = {}
+    for k, layer in enumerate(f.getLayers()):
+        here = {}
+        row = []
+        for n in layer:
+            # the target as the PROPERTY defines it, found without following the
+            # code's own parent links: the data position in the nearest layer, the
+            # final position of the label's own stub (same payload) in the layer below
+            if k == 0:
+                tgt = n.idealPos
+            elif n.data in below:
+                tgt = below[n.data]
+            else:
+                tgt = None
+                link_errors.append("layer %d: item of label %r has no stub in layer %d" % (k, n.data, k - 1))
+            via_parent = n.parent.currentPos if n.parent else n.idealPos
+            if tgt is not None and via_parent != tgt:
+                link_errors.append("layer %d: item of label %r is aimed at %r, its own stub in layer %d ended at %r" % (
+                    k, n.data, via_parent, k - 1, tgt))
+            if tgt is None:
+                tgt = via_parent
+            if n.data in here:
+                link_errors.append("layer %d: label %r occurs twice" % (k, n.data))
+            here[n.data] = n.currentPos
+            row.append([tgt, n.width, bool(n.isStub()), n.currentPos])
+        below = here
+        layers.append(row)
+    out = {"layers": layers, "layerWidth": f.distributor.options["layerWidth"]}
+    if link_errors:
+        out["link_errors"] = link_errors[:5]
+    return out
 
 
 # ------------------------------------------------------------------ encoding
